@@ -50,4 +50,11 @@ def rule_raw_reader_escapes(ctx):
                          % (item.cls.replace("builtins.", ""), item.origin[2], reader.replace("cutplace.", ""), _chain_text(item)))
 
 
-RULES = [rule_modes, rule_copies, rule_raw_reader_escapes]
+def rule_csv_fault_conversion(ctx):
+    from .c10 import rule_delimited_error_helper
+
+    rule_delimited_error_helper(ctx)
+    ctx.res.rule_instances["O6.3b"] = ctx.res.rule_instances.get("O10.csv-error", 0)
+
+
+RULES = [rule_modes, rule_copies, rule_raw_reader_escapes, rule_csv_fault_conversion]
